@@ -778,6 +778,34 @@ pub fn run(out: &mut Out, tier: &str, seed: u64, prop: &str) {
                         out.oracle_fail("C11", "simplify_extras(E)(S) differs from original(S ∪ E)", serde_json::json!({"a": a.term.line(), "E": names, "env": e.line()}));
                     }
                 }
+                // the closure form is the same operation
+                {
+                    let ns: Vec<ExtraName> = names.iter().map(|n| ExtraName::from_str(n).unwrap()).collect();
+                    let by_closure = a.tree.clone().simplify_extras_with(|n| ns.contains(n));
+                    if by_closure != m { out.oracle_fail("C11", "simplify_extras_with(|n| E.contains(n)) differs from simplify_extras(E)", serde_json::json!({"a": a.term.line(), "E": names})); }
+                    let none = a.tree.clone().simplify_extras_with(|_| false);
+                    if none != a.tree { out.oracle_fail("C11", "simplify_extras_with(|_| false) changed the marker", serde_json::json!({"a": a.term.line()})); }
+                }
+                // Requirement::with_extra_marker(e): the old marker AND `extra == e`
+                for n in names.iter().take(2) {
+                    let e = ExtraName::from_str(n).unwrap();
+                    let req = pep508_rs::Requirement::<pep508_rs::VerbatimUrl> { name: pep508_rs::PackageName::from_str("n").unwrap(), extras: vec![], version_or_url: None, marker: a.tree.clone(), origin: None };
+                    let got = req.clone().with_extra_marker(&e);
+                    let mut want = a.tree.clone();
+                    want.and(MarkerTree::expression(pep508_rs::MarkerExpression::Extra { operator: pep508_rs::ExtraOperator::Equal, name: pep508_rs::MarkerValueExtra::Extra(e.clone()) }));
+                    out.evaluations += 1;
+                    if got.marker != want || got.name != req.name || got.extras != req.extras || got.version_or_url != req.version_or_url {
+                        out.oracle_fail("C11", "with_extra_marker(e) is not `marker and extra == e` on an otherwise unchanged requirement", serde_json::json!({"a": a.term.line(), "extra": n}));
+                    }
+                    for env in &envs {
+                        let active = env.extras().contains(&e);
+                        if env.eval(&got.marker) != (env.eval(&a.tree) && active) {
+                            out.oracle_fail("C11", "with_extra_marker(e) does not evaluate as `marker and e active`", serde_json::json!({"a": a.term.line(), "extra": n, "env": env.line()}));
+                            break;
+                        }
+                    }
+                    out.stat("c11.with_extra_marker");
+                }
                 let d = dump(&m);
                 for n in names {
                     let tok = format!("x:e:{}", hex(ExtraName::from_str(n).unwrap().as_ref()));
